@@ -20,6 +20,22 @@ def run(ctx):
     rng = ctx.rng
     ns = [1, 2, 3, 4, 11, 12, 17, 40] if ctx.quick() else [1, 2, 3, 4, 5, 8, 11, 12, 15, 16, 17, 33, 64, 100, 300] * 2
     sts = [mpgen.statement(rng, n, max_dense=2) for n in ns]
+    # commitments shared by POINTER between openings, systematically: adjacent and non-adjacent repeats of
+    # projective (as returned by Commit), rescaled and normalised elements
+    for pat in (["k", "n", "p0"], ["k", "p0", "n"], ["s7", "k", "p0", "p1"], ["k", "n", "n", "p0", "p1", "p0"], ["n", "k", "p1", "p0"],
+                ["sf3", "f", "p0", "k", "p3", "p1"]):
+        specs = {}
+        ops = []
+        for i, r_ in enumerate(pat):
+            if r_.startswith("p"):
+                sp = specs[int(r_[1:])]
+            else:
+                sp, _ = mpgen.poly_spec(rng, rng.choice(["s", "u", "s2"]))
+            specs[i] = sp
+            rr = r_ if not (r_.startswith("s") and not r_.startswith("sf")) else "s%x" % rng.randrange(2, E.P)
+            rr = rr if not r_.startswith("sf") else "sf%x" % rng.randrange(2, E.P)
+            ops.append("%s %d %s" % (rr, rng.randrange(256), sp))
+        sts.append(("mpc %s 1 - %s" % (E.hx(b"shared"), " ".join(ops)), {"n": len(pat), "zpat": "shared-pointers"}))
     lines = [s[0] for s in sts]
     # each statement twice in the same process (second run must not depend on the first)
     lines2 = lines + lines
